@@ -109,7 +109,104 @@ fn recovery() -> Vec<HOp> {
 }
 
 fn units(_tier: &str) -> usize {
-    grid().len() + dup_cases().len() + NG.len()
+    grid().len() + dup_cases().len() + NG.len() + dir_cases().len()
+}
+
+// ---------------------------------------------------------------- the log directory disappears
+
+fn dir_cases() -> Vec<(NamingK, CleanK, ModeK)> {
+    let mut v = Vec::new();
+    for naming in NG {
+        for clean in [CleanK::Never, CleanK::Log(1)] {
+            for mode in [ModeK::Direct, ModeK::BufDont(16)] {
+                v.push((naming, clean, mode));
+            }
+        }
+    }
+    v
+}
+
+/// W W [the log directory is removed with everything in it] W W W [an empty directory is created
+/// again] W W W: every log call returns normally (no panic), the failures are reported, and once
+/// the directory exists again logging resumes (the last record is in a file).
+fn run_dir_removed(naming: NamingK, clean: CleanK, mode: ModeK) -> Result<usize, Fail> {
+    let env = Env::new("c19r");
+    env.enter();
+    let mut cfg = Cfg::rot(CritK::Size(LIMIT), naming, clean);
+    cfg.mode = mode;
+    let mut h = Hist::new(&env, cfg.clone());
+    let step = |h: &mut Hist, what: &str| -> Result<(), Fail> {
+        match h.apply(HOp::W(20)) {
+            Err(crate::fl::StepErr::Build(e)) => Err(Fail {
+                clause: "run-error",
+                detail: format!("{what}: build: {e}"),
+            }),
+            _ => Ok(()),
+        }
+    };
+    step(&mut h, "before")?;
+    step(&mut h, "before")?;
+    std::fs::remove_dir_all(&env.dir).map_err(|e| Fail {
+        clause: "machinery",
+        detail: e.to_string(),
+    })?;
+    let errs0 = env.errlines().len();
+    for _ in 0..3 {
+        step(&mut h, "directory missing")?;
+    }
+    let reported = env.errlines().len() - errs0;
+    if reported == 0 {
+        return Err(Fail {
+            clause: "not-reported",
+            detail: "three records were logged while the log directory did not exist (rotation cannot open the next file) but nothing was written to the error channel".into(),
+        });
+    }
+    std::fs::create_dir_all(&env.dir).ok();
+    for _ in 0..3 {
+        step(&mut h, "directory back")?;
+    }
+    let last = h.accepted.last().cloned().unwrap_or_default();
+    h.stop();
+    drop(h);
+    env.leave();
+    let mut all = Vec::new();
+    for n in family::list_names(&env.dir) {
+        all.extend(std::fs::read(env.dir.join(&n)).unwrap_or_default());
+    }
+    if !all.ends_with(&last) && !all.windows(last.len().max(1)).any(|w| w == last.as_slice()) {
+        return Err(Fail {
+            clause: "no-recovery",
+            detail: format!("the directory exists again and three more (rotating) records were logged, but the last one {:?} is in no file: {:?}", String::from_utf8_lossy(&last), family::list_names(&env.dir)),
+        });
+    }
+    Ok(reported)
+}
+
+fn run_dir_unit(idx: usize, unit: usize, out: &mut Out) {
+    let (naming, clean, mode) = dir_cases()[idx];
+    let case = json!({"unit": unit, "dir_removed": idx});
+    let cause = format!("log-directory-removed/{}/{}/{}", naming.short(), if clean == CleanK::Never { "never" } else { "keeplog" }, super::c08::mode_class(mode));
+    let mut vs = Vec::new();
+    for _ in 0..2 {
+        out.evaluations += 1;
+        out.transitions += 8;
+        match run_isolated(Duration::from_secs(30), move || run_dir_removed(naming, clean, mode)) {
+            Ran::Done(Ok(n)) => {
+                out.outcome(format!("directory removed: error lines={}", n.min(9)));
+                break;
+            }
+            Ran::Done(Err(f)) => vs.push(Violation::new(f.clause, cause.clone(), format!("naming {naming:?}, cleanup {clean:?}, mode {mode:?}; history W W [rm -r logdir] W W W [mkdir logdir] W W W\n  {}", f.detail), case.clone())),
+            Ran::Panicked(m) => vs.push(Violation::new("panic", cause.clone(), format!("naming {naming:?}, cleanup {clean:?}, mode {mode:?}; history W W [rm -r logdir] W W W [mkdir logdir] W W W\n  a log call panicked: {m}"), case.clone())),
+            Ran::Hung => vs.push(Violation::new("hang", cause.clone(), String::new(), case.clone())),
+        }
+    }
+    out.state(&(unit, "dir"));
+    out.nontrivial(&(unit, "dir"));
+    if vs.len() == 2 && vs[0].key() == vs[1].key() {
+        out.violation(vs.remove(0));
+    } else if !vs.is_empty() {
+        out.violation(Violation::new("nondeterministic", "replay-diverged", vs[0].detail.clone(), case));
+    }
 }
 
 // ---------------------------------------------------------------- current file on a full device
@@ -680,6 +777,10 @@ fn judge_df(c: &Case, faults: &[FaultSpec], dev_full: Option<String>, unit: usiz
 
 fn run_unit(tier: &str, unit: usize, out: &mut Out) {
     let g = grid();
+    if unit >= g.len() + dup_cases().len() + NG.len() {
+        run_dir_unit(unit - g.len() - dup_cases().len() - NG.len(), unit, out);
+        return;
+    }
     if unit >= g.len() + dup_cases().len() {
         run_cur_full_unit(unit - g.len() - dup_cases().len(), unit, out);
         return;
@@ -783,6 +884,12 @@ fn run_unit(tier: &str, unit: usize, out: &mut Out) {
 fn replay(case: &Value) -> Vec<Violation> {
     let g = grid();
     let unit = case["unit"].as_u64().unwrap_or(0) as usize;
+    if let Some(idx) = case["dir_removed"].as_u64() {
+        let mut out = Out::default();
+        println!("replay C19: log directory removed, case {:?}", dir_cases().get(idx as usize));
+        run_dir_unit(idx as usize, unit, &mut out);
+        return out.violations;
+    }
     if let Some(idx) = case["cur_full"].as_u64() {
         let mut out = Out::default();
         println!("replay C19: current file on a full device, naming {:?}", NG.get(idx as usize));
